@@ -10,6 +10,8 @@
 #include "flow/actions/sequence_action.cpp"
 #include "flow/actions/parallel_action.cpp"
 #include "flow/actions/dummy_action.cpp"
+#include "flow/actions/repeat_action.cpp"
+#include "flow/actions/loop_action.cpp"
 #include "util/variables.cpp"
 using namespace tbox; using namespace tbox::flow;
 #ifndef NL
@@ -109,4 +111,43 @@ extern "C" void h_tree() {
 #endif
     VP_REACH("tree");
     for (int i = 0; i < NL; i++) { /* children are owned (deleted) by the root */ }
+}
+
+// ---- Repeat / Loop over one probe leaf: the documented loop meaning
+//   Repeat(n, kNoBreak): for (i = 0; i < n; ++i) action();           -> success after n rounds
+//   Repeat(n, kBreakFail): for (i = 0; i < n && action(); ++i);      -> the failing round's result, else success after n rounds
+//   Repeat(n, kBreakSucc): for (i = 0; i < n && !action(); ++i);     -> the succeeding round's result, else success after n rounds
+//   Loop(kUntilFail): while (action());   Loop(kUntilSucc): while (!action());   (kForever never finishes by itself)
+#ifndef RMAX
+#define RMAX 4
+#endif
+static unsigned char r_out[RMAX + 1]; static bool r_inline[RMAX + 1]; static int r_round; static DummyAction *r_leaf; static int r_underway_at_start;
+static void r_deliver() { int k = r_round - 1; if (k > RMAX) k = RMAX; r_leaf->emitFinish(r_out[k] == O_SUCC); }
+extern "C" void h_repeat() {
+    vpf::FakeLoop loop; root_finish = 0; root_result = -1; r_round = 0; r_underway_at_start = 0;
+    bool is_loop = nondet_bool();
+    unsigned mode = nondet_uchar(); VP_ASSUME(mode <= 2);
+    unsigned times = nondet_uchar(); VP_ASSUME(times >= 1 && times <= 3); times = (unsigned)vp_concretize(times);
+    for (int i = 0; i <= RMAX; i++) { r_out[i] = nondet_bool() ? O_SUCC : O_FAIL; r_inline[i] = nondet_bool(); }
+    if (is_loop) { VP_ASSUME(mode != 0); r_out[RMAX] = (mode == 1) ? O_FAIL : O_SUCC; }       // the loop is guaranteed to end within RMAX+1 rounds (mode 1 = until fail, 2 = until succ)
+    r_leaf = new DummyAction(loop);
+    r_leaf->setStartCallback([] { r_round++; if (r_round <= RMAX + 1 && r_inline[r_round - 1 > RMAX ? RMAX : r_round - 1]) r_deliver(); });
+    Action *root;
+    if (is_loop) root = new LoopAction(loop, r_leaf, (LoopAction::Mode)mode); else root = new RepeatAction(loop, r_leaf, times, (RepeatAction::Mode)mode);
+    root->setFinishCallback([](bool ok, const Action::Reason &, const Action::Trace &) { root_finish++; root_result = ok ? 1 : 0; });
+    VP_ASSERT(root->start(), "root starts");
+    for (int pass = 0; pass < 4 * (RMAX + 2) && root->state() != Action::State::kFinished; pass++) {
+        if (r_leaf->state() == Action::State::kRunning) r_deliver();                         // late completion of the current round
+        for (int k = 0; k < 8 && !loop.next_q.empty(); k++) loop.pass();
+    }
+    // reference
+    int exp_rounds = 0, exp_result = 1;
+    if (is_loop) { for (int i = 0; i <= RMAX; i++) { exp_rounds++; bool ok = r_out[i] == O_SUCC; if ((mode == 2 && ok) || (mode == 1 && !ok)) { exp_result = ok; break; } } }
+    else { for (unsigned i = 0; i < times; i++) { exp_rounds++; bool ok = r_out[i] == O_SUCC; if ((mode == 2 && ok) || (mode == 1 && !ok)) { exp_result = ok; break; } } }
+    VP_ASSERT(root->state() == Action::State::kFinished && root_finish == 1, "the composite finishes exactly once");
+    VP_ASSERT(r_round == exp_rounds, "the child is run exactly as many rounds as the documented loop meaning says (never restarted while a round is under way)");
+    VP_ASSERT(root_result == exp_result, "the composite finishes with the result the documented loop meaning gives");
+    VP_ASSERT(!r_leaf->isUnderway(), "after the root finished no descendant is left running");
+    delete root;
+    VP_REACH("repeat");
 }
